@@ -28,7 +28,9 @@ SPEC = dict(
           "mode cold: all goroutines evaluate the SAME freshly parsed+validated AST (interpolation-heavy programs, imports) at the "
           "same moment without warm-up, reference value from a separate parse of the same source; mode ids: the goroutines parse "
           "with ONE shared provider and the instance ids of all runtime components of all returned trees (reflection) must be "
-          "distinct; result = number of differing results and number of duplicate instance ids. Non-trivial = at least 2 goroutines and the directed programs included."),
+          "distinct; mode poison: parses abandoned by a recovered panic (faulty provider panicking at the k-th Runtime() call, k sweeping over all "
+          "node positions incl. if/for guards; 1..16 goroutines, 1 = strictly sequential host) followed by ordinary parses compared with the "
+          "reference computed before; result = number of differing results and number of duplicate instance ids. Non-trivial = at least 2 goroutines (or mode poison) and the directed programs included."),
     trusted_base=[
         "the access classification is syntactic (go/ast): writes through aliases, through method calls on package-level "
         "values and in dependencies (krotik/common) are not seen by the extractor; the race-detector run of the thorough "
